@@ -108,8 +108,10 @@ class Stress:
     @staticmethod
     def to_gallina(c, o):
         from .core import gN
-        return "Build_stress_case %s %s %s %s %s %s" % (gN(o.get("races", 0)), gN(o.get("bad", 0)), "true" if o.get("unfinished", True) else "false",
-                                                      gN(o.get("lookups", 0)), gN(o.get("overlap", 0)), gN(o.get("regress", 0)))
+        return "Build_stress_case %s %s %s %s %s %s %s %s %s" % (
+            gN(o.get("races", 0)), gN(o.get("bad", 0)), "true" if o.get("unfinished", True) else "false",
+            gN(o.get("lookups", 0)), gN(o.get("overlap", 0)), gN(o.get("regress", 0)),
+            gN(o.get("behind", 0)), gN(o.get("shrinks", 0)), gN(o.get("wire_stale", 0)))
 
     @staticmethod
     def nontrivial(c, o):
